@@ -105,6 +105,7 @@ type c11Config struct {
 }
 
 func runC11(c *Ctx) {
+	buildersDiff(c)
 	c.rep.Rule = "provider configurations (static issuer with/without path and trailing slash; host-derived issuer; each endpoint default / custom path with and without leading slash / external URL; custom metadata path; WantAuthRequestsSigned in {'', false, true, 1}; encryption algorithm; organisation/contact; metadata signing) x request hosts: GET metadata, then a request to every advertised path-configured location, the certificate endpoint, and an unsigned SSO request. Non-trivial = metadata was served; distinct = (configuration, host)."
 	initKeys()
 	ep := func(p string) *provider.Endpoint { e := provider.NewEndpoint(p); return &e }
